@@ -139,6 +139,7 @@ class SymEval:
         self.model = model
         self.inline = set(inline)  # method / function simple names or qualnames to inline
         self.loop_breaks: Dict[int, List] = {}  # loop uid -> [(guard, ast node)] of `break` statements (early exits)
+        self.loop_continues: Dict[int, List] = {}  # loop uid -> [(guard, environment)] at `continue` statements
         self.helper_stack: List[str] = []  # helpers (functions not in the frozen API table) being analysed inline
         self.max_depth = max_depth
         self.inline_properties = inline_properties
@@ -177,8 +178,9 @@ class SymEval:
 
     # ------------------------------------------------------------------ entry points
     def run_function(self, fi: FuncInfo, args: Optional[Dict[str, Term]] = None, self_term: Optional[Term] = None,
-                     parent_frame: Optional[Frame] = None) -> "Result":
-        cls = self.model.classes.get(fi.cls) if fi.cls else None
+                     parent_frame: Optional[Frame] = None, as_class: Optional[str] = None) -> "Result":
+        # as_class: the concrete class the method is analysed for (an inherited method reads that class's constants)
+        cls = self.model.classes.get(as_class or fi.cls) if (as_class or fi.cls) else None
         env: Dict[str, Term] = {}
         a = fi.node.args
         params = [p.arg for p in a.posonlyargs + a.args]
@@ -383,6 +385,9 @@ class SymEval:
         self.live = T.FALSE
 
     def st_Continue(self, st, frame):
+        # the iteration ends here with the values bound so far: what the rest of the body assigns does not apply on this path
+        if self.loop_stack and self.live != T.FALSE:
+            self.loop_continues.setdefault(self.loop_stack[-1], []).append((self.live, dict(frame.env)))
         self.live = T.FALSE
 
     def st_FunctionDef(self, st, frame):
@@ -501,9 +506,35 @@ class SymEval:
             self.heap[(T.sym(d), a)] = T.sym(f"loopout{lid}:{d}.{a}")
         if kind == "for" and target is not None:
             self._loop_to_comprehension(lid, st, frame, iter_term, target, snap[0], snap[1], snap[3])
+            self._loop_to_max(lid, st, frame, iter_term, target, info, snap[1], snap[3])
         if st.orelse:
             self.exec_block(st.orelse, frame)
         return lid
+
+    def _loop_to_max(self, lid, st, frame, iter_term, target, info, env0, live0):
+        """m = m0; for x in xs: if v(x) > m: m = v(x)   (or m = max(m, v(x)), possibly under a filter)   is   m = max([m0] + [v(x) for x in xs if ...])."""
+        if lid in self.loop_breaks or any(isinstance(n, (ast.Break, ast.Return)) for n in ast.walk(st)):
+            return
+        tname = _dotted(target) or ast.unparse(target)
+        for n, sym_in in info.env_in.items():
+            out = info.env_out.get(n)
+            pre = env0.get(n)
+            if out is None or pre is None or frame.env.get(n) != T.sym(f"loopout{lid}:{n}"):
+                continue
+            conds = ()
+            body = out
+            if body[0] == "ite" and body[3] == sym_in:
+                conds, body = (body[1],), body[2]
+            elif body[0] == "ite" and body[2] == sym_in:
+                conds, body = (T.mk_not(body[1]),), body[3]
+            if body[0] != "max" or sym_in not in body[1] or len(body[1]) != 2:
+                continue
+            v = [x for x in body[1] if x != sym_in][0]
+            if any(x == sym_in for x in T.walk(v)) or any(x == sym_in for c in conds for x in T.walk(c)):
+                continue
+            cs = tuple(c if live0 == T.TRUE else T.assume(c, live0, True) for c in conds)
+            comp = ("comp", "list", v, ((tname, iter_term),), tuple(c for c in cs if c != T.TRUE))
+            frame.env[n] = T.mk_call("max", [T.mk_call("+", [("list", (pre,)), comp])])
 
     def _loop_to_comprehension(self, lid, st, frame, iter_term, target, ev0, env0, live0):
         """A local list / dict that a `for` loop fills with exactly one (possibly guarded) append / item store per iteration is
@@ -523,13 +554,17 @@ class SymEval:
             pre = env0.get(n)
             if pre is None or pre == v:
                 continue
-            if v[0] == "accum" and pre[0] in ("list", "accum"):
+            is_set = pre == ("call", "set", (), (), None)
+            if v[0] == "accum" and (pre[0] in ("list", "accum") or is_set):
                 pre_items = pre[2] if pre[0] == "accum" else ()
                 base = pre[1] if pre[0] == "accum" else pre
                 if v[1] != base or v[2][:len(pre_items)] != pre_items or len(v[2]) != len(pre_items) + 1:
                     continue
                 _, g, elt, loops, how = v[2][-1]
-                if how != "append" or loops != stack:
+                if how != ("add" if is_set else "append") or loops != stack:
+                    continue
+                if is_set:
+                    frame.env[n] = ("comp", "set", elt, ((tname, iter_term),), conds_of(g))  # s = set(); for ...: s.add(v)  is  {v for ...}
                     continue
                 comp = ("comp", "list", elt, ((tname, iter_term),), conds_of(g))
                 frame.env[n] = comp if (pre[0] == "list" and not pre[1]) else T.mk_call("+", [pre, comp])
@@ -565,6 +600,13 @@ class SymEval:
             self.live = T.mk_and([body_live, cond_t])
         self.exec_block(st.body, frame)
         env_out = dict(frame.env)
+        for g, env_c in reversed(self.loop_continues.pop(lid, [])):
+            gc = g if body_live == T.TRUE else T.assume(g, body_live, True)
+            for n in set(env_out) | set(env_c):
+                a, b = env_c.get(n), env_out.get(n)
+                if a is not None and b is not None and a != b and a[0] != "closure" and b[0] != "closure":
+                    env_out[n] = T.mk_ite(gc, a, b)
+        frame.env.update({n: v for n, v in env_out.items() if n in frame.env})
         live_out = self.live
         self.loop_stack = self.loop_stack[:-1]
         self.live = live0
@@ -573,7 +615,7 @@ class SymEval:
 
     def _flag_loop(self, st, frame) -> bool:
         """flag = True; for x in it: if c(x): flag = False [; break]   is   flag = all(not c(x) for x in it)   (and the dual with any)."""
-        if st.orelse or len(st.body) != 1 or not isinstance(st.body[0], ast.If) or st.body[0].orelse:
+        if len(st.body) != 1 or not isinstance(st.body[0], ast.If) or st.body[0].orelse:
             return False
         body = st.body[0].body
         if not (1 <= len(body) <= 2) or (len(body) == 2 and not isinstance(body[1], ast.Break)):
@@ -582,9 +624,17 @@ class SymEval:
         if not (isinstance(a, ast.Assign) and len(a.targets) == 1 and isinstance(a.targets[0], ast.Name) and isinstance(a.value, ast.Constant)
                 and isinstance(a.value.value, bool)):
             return False
-        pre = frame.lookup(a.targets[0].id)
-        if pre != (T.FALSE if a.value.value else T.TRUE):
-            return False
+        if st.orelse:
+            # for ...: if c: flag = False; break      the else clause runs when the loop was not left by the break: same function of c
+            # else: flag = True
+            o = st.orelse
+            if not (len(o) == 1 and len(body) == 2 and isinstance(o[0], ast.Assign) and len(o[0].targets) == 1 and isinstance(o[0].targets[0], ast.Name)
+                    and o[0].targets[0].id == a.targets[0].id and isinstance(o[0].value, ast.Constant) and o[0].value.value is (not a.value.value)):
+                return False
+        else:
+            pre = frame.lookup(a.targets[0].id)
+            if pre != (T.FALSE if a.value.value else T.TRUE):
+                return False
         test = st.body[0].test
         if any(isinstance(n, (ast.Call, ast.NamedExpr, ast.Await)) and not (isinstance(n, ast.Call) and isinstance(n.func, ast.Name) and n.func.id in ("len", "isinstance", "bool"))
                for n in ast.walk(test)):
@@ -608,9 +658,30 @@ class SymEval:
                 self.assign(st.target, x, frame, st)
                 self.exec_block(st.body, frame)
             return
+        if it[0] == "call" and T.call_name(it) == "itertools.count" and len(it[2]) <= 1 and not it[3] and isinstance(st.target, ast.Name) and not st.orelse \
+                and isinstance(st.iter, ast.Call) and not any(isinstance(n, ast.Continue) for n in ast.walk(st)):
+            # for i in itertools.count(a): body (left by break)   is   i = a; while True: body; i += 1
+            init = ast.Assign(targets=[ast.Name(id=st.target.id, ctx=ast.Store())], value=st.iter.args[0] if st.iter.args else ast.Constant(value=0))
+            inc = ast.AugAssign(target=ast.Name(id=st.target.id, ctx=ast.Store()), op=ast.Add(), value=ast.Constant(value=1))
+            wl = ast.While(test=ast.Constant(value=True), body=list(st.body) + [inc], orelse=[])
+            for n_ in (init, inc, wl):
+                ast.copy_location(n_, st)
+                ast.fix_missing_locations(n_)
+            self.exec_stmt(init, frame)
+            self.exec_stmt(wl, frame)
+            return
         fuse = _fuse_source(it)
         if fuse is not None:
             self._loop("for", st, frame, fuse[0], st.target, proj=("fuse",) + fuse[1:])
+            return
+        if it[0] == "call" and it[1] in ("&", "-") and len(it[2]) == 2 and _is_keys_view(it[2][0]):
+            # for k in a.keys() & b.keys() / a.keys() - b: the loop over a's keys under `k in b` / `k not in b`
+            ph = T.sym("__filter_elem__")
+            other = it[2][1]
+            other = (T.sym(other[1][:-len(".keys")]) if isinstance(other[1], str) else other[1][1]) if _is_keys_view(other) else other
+            cond = ("in", ph, other) if it[1] == "&" else T.mk_not(("in", ph, other))
+            src, proj = canon_iter(it[2][0])
+            self._loop("for", st, frame, src, st.target, proj=("fuse", ph if proj is None else T.mk_index(ph, T.const(proj)), ph, (T.subst(cond, {ph: ph if proj is None else T.mk_index(ph, T.const(proj))}),)))
             return
         if it[0] == "call" and T.call_name(it) in ("filter", "itertools.filterfalse") and len(it[2]) == 2 and not it[3] and it[2][0] != T.NONE:
             # for x in filter(p, xs) / itertools.filterfalse(p, xs): the loop over xs whose body runs under p(x) / not p(x)
@@ -625,6 +696,11 @@ class SymEval:
         self._loop("for", st, frame, it, st.target, proj=proj)
 
     def st_While(self, st, frame):
+        f = _counter_while_as_for(st, frame)
+        if f is not None:
+            # i = a; while i < n: body; i += 1   is   for i in range(a, n): body
+            self.exec_stmt(f, frame)
+            return
         self._loop("while", st, frame, None, None, cond_ast=st.test)
 
     def st_With(self, st, frame):
@@ -754,8 +830,14 @@ class SymEval:
                                                                              for n in ast.walk(st.value)) and _never_mutated(mi.tree, name):
                         # a module-level constant spelled as arithmetic on literals (2**31 - 1): the same term as the expression in place
                         return self.eval(st.value, Frame(f"{frame.module}.<module>", frame.module, None, {}))
-                    simple = lambda v: isinstance(v, (ast.Name, ast.Attribute, ast.Constant)) or (
-                        isinstance(v, ast.UnaryOp) and isinstance(v.op, ast.USub) and isinstance(v.operand, ast.Constant))
+                    def simple(v):
+                        return isinstance(v, (ast.Name, ast.Attribute, ast.Constant)) or (
+                            isinstance(v, ast.UnaryOp) and isinstance(v.op, ast.USub) and isinstance(v.operand, ast.Constant)) or (
+                            isinstance(v, (ast.Tuple, ast.List)) and len(v.elts) <= 8 and all(simple(x) for x in v.elts))
+                    if isinstance(st.value, ast.Call) and (_dotted(st.value.func) or "").endswith("partial") and st.value.args and all(simple(a_) for a_ in st.value.args) \
+                            and all(k.arg and simple(k.value) for k in st.value.keywords) and _never_mutated(mi.tree, name):
+                        # a module-level functools.partial(f, ...) object: the function it abbreviates
+                        return self.eval(st.value, Frame(f"{frame.module}.<module>", frame.module, None, {}))
                     if isinstance(st.value, ast.Dict) and st.value.keys and all(isinstance(k, ast.Constant) for k in st.value.keys) \
                             and all(simple(v) for v in st.value.values) and _never_mutated(mi.tree, name):
                         # a module-level table of named functions / constants (never written again): known contents
@@ -775,13 +857,17 @@ class SymEval:
 
     def _class_constant(self, ci, name: str, frame: Frame) -> Optional[Term]:
         """A class-level tuple / list of constants (e.g. the names of the queues) that no method ever assigns to."""
-        for st in ci.node.body:
-            if isinstance(st, ast.Assign) and len(st.targets) == 1 and isinstance(st.targets[0], ast.Name) and st.targets[0].id == name \
-                    and isinstance(st.value, (ast.Tuple, ast.List)) and st.value.elts and all(isinstance(v, ast.Constant) for v in st.value.elts):
-                for n in ast.walk(ci.node):
-                    if isinstance(n, ast.Attribute) and n.attr == name and isinstance(n.ctx, (ast.Store, ast.Del)):
-                        return None
-                return ("tuple" if isinstance(st.value, ast.Tuple) else "list", tuple(T.const(v.value) for v in st.value.elts))
+        for c in self.model.mro(ci):
+            for st in c.node.body:
+                if isinstance(st, ast.Assign) and len(st.targets) == 1 and isinstance(st.targets[0], ast.Name) and st.targets[0].id == name \
+                        and isinstance(st.value, (ast.Tuple, ast.List)) and st.value.elts \
+                        and all(isinstance(v, (ast.Constant, ast.Attribute, ast.Name)) for v in st.value.elts):
+                    for k in self.model.mro(ci):
+                        for n in ast.walk(k.node):
+                            if isinstance(n, ast.Attribute) and n.attr == name and isinstance(n.ctx, (ast.Store, ast.Del)):
+                                return None
+                    mf = Frame(f"{c.module}.<module>", c.module, None, {})
+                    return ("tuple" if isinstance(st.value, ast.Tuple) else "list", tuple(self.eval(v, mf) for v in st.value.elts))
         return None
 
     # attributes another thread may write while this function runs: *when* they are read matters, so each read is an event
@@ -791,6 +877,13 @@ class SymEval:
         base = self.eval(e.value, frame)
         if e.attr in self.VOLATILE and isinstance(e.ctx, ast.Load):
             self.emit("read", T.show(T.mk_attr(base, e.attr)), T.mk_attr(base, e.attr), e, frame)
+        qn = _queue_of_entry(base)
+        if qn is not None:
+            qc = self.model.queue_entry_classes().get(qn)
+            if qc is not None:
+                fs = self.model.dataclass_fields(qc)
+                if e.attr in fs:
+                    return T.mk_index(base, T.const(fs.index(e.attr)))  # entry.<field> of a NamedTuple queue entry is entry[<position>]
         if base in (T.sym("self"), T.sym("cls")) and frame.cls is not None and (base, e.attr) not in self.heap:
             cc = self._class_constant(frame.cls, e.attr, frame)
             if cc is not None:
@@ -879,6 +972,9 @@ class SymEval:
                     b[0] == "const" and isinstance(b[1], str)):
                 return T.mk_call("+", [a, b])
             return T.add(a, b)
+        if isinstance(op, (ast.Sub, ast.BitAnd, ast.BitOr)) and (_is_keys_view(a) or _is_keys_view(b)):
+            # set algebra on dict key views: kept symbolic (not arithmetic)
+            return T.mk_call({ast.Sub: "-", ast.BitAnd: "&", ast.BitOr: "|"}[type(op)], [a, b])
         if isinstance(op, ast.Sub):
             if nonnum(a) or nonnum(b):
                 return T.mk_call("-", [a, b])
@@ -943,6 +1039,8 @@ class SymEval:
                 r = T.mk_or([T.eq(a, x, numeric=False) for x in b[1]])
             elif b[0] == "dict" and b[1] and all(k[0] == "const" for k, _ in b[1]):
                 r = T.mk_or([T.eq(a, k, numeric=False) for k, _ in b[1]])
+            elif b[0] == "call" and not b[2] and not b[3] and ((isinstance(b[1], str) and b[1].endswith(".keys")) or (isinstance(b[1], tuple) and b[1][0] == "attr" and b[1][2] == "keys")):
+                r = ("in", a, T.sym(b[1][:-len(".keys")]) if isinstance(b[1], str) else b[1][1])  # k in d.keys() is k in d
             else:
                 r = ("in", a, b)
             return r if isinstance(op, ast.In) else T.mk_not(r)
@@ -1001,6 +1099,9 @@ class SymEval:
         sel = self.dict_select(base, key, None, e, frame)
         if sel is not None:
             return sel
+        if base[0] in ("tuple", "list") and len(base[1]) == 2 and (T._is_bool(key) or (key[0] == "call" and key[1] == "bool" and len(key[2]) == 1)) and key[0] != "const":
+            # (a, b)[bool(c)] is b if c else a
+            return T.mk_ite(self.as_bool(key), base[1][1], base[1][0])
         return T.mk_index(base, key)
 
     def dict_select(self, base: Term, key: Term, default: Optional[Term], node, frame) -> Optional[Term]:
@@ -1168,10 +1269,14 @@ class SymEval:
                 else:
                     expanded.append((k, v))
             kwargs = expanded
+        if method in ("append", "appendleft") and len(args) == 1 and args[0][0] == "obj" and isinstance(e.func.value, ast.Attribute) \
+                and e.func.value.attr in self.model.queue_entry_classes() and self.model.queue_entry_classes()[e.func.value.attr].qualname.split(".")[-1] == args[0][1]:
+            args = [("tuple", tuple(v for _, v in args[0][2]))]  # the entry as the plain tuple it is
         # local list accumulation: x = []; ...; x.append(v)  ->  x becomes an 'accum' term that remembers what was
         # appended under which guard (the list object is local, so this is not an effect)
-        if method in ("append", "extend") and isinstance(e.func.value, ast.Name) and recv is not None \
-                and len(args) == 1 and not kwargs and frame.lookup(e.func.value.id) is recv:
+        if method in ("append", "extend", "add") and isinstance(e.func.value, ast.Name) and recv is not None \
+                and len(args) == 1 and not kwargs and frame.lookup(e.func.value.id) is recv \
+                and (method != "add" or recv == ("call", "set", (), (), None) or (recv[0] == "accum" and recv[1] == ("call", "set", (), (), None))):
             item = ("acc_item", self.live, args[0], self.loop_stack, method)
             new = _acc_append(recv, item)
             if new is not None:
@@ -1278,6 +1383,35 @@ class SymEval:
             # jnp.max(x, axis=1) / onp.amax(x, axis=1) is x.max(axis=1): one normal form for reductions of an array
             m = _REDUCTIONS[name]
             return self.call(T.mk_attr(args[0], m) if args[0][0] == "sym" else ("attr", args[0], m), list(args[1:]), kwargs, node, frame, recv=args[0], method=m)
+        if name in ("max", "min", "sum", "len", "tuple", "list", "sorted", "any", "all") and len(args) == 1 and args[0][0] == "obj":
+            oc_ = self.model.find_class(args[0][1])
+            if oc_ is not None and getattr(oc_, "is_namedtuple", False):
+                args = [("tuple", tuple(v for _, v in args[0][2]))]  # a NamedTuple instance is the tuple of its fields
+        lit = lambda t: t[0] in ("tuple", "list") and not any(x[0] == "star" for x in t[1])
+        if name == "map" and len(args) == 2 and not kwargs and lit(args[1]):
+            return ("tuple", tuple(self.call(args[0], [x], [], node, frame) for x in args[1][1]))  # map over a literal sequence, element by element
+        if name == "zip" and len(args) >= 2 and not kwargs and all(lit(a_) for a_ in args) and len({len(a_[1]) for a_ in args}) == 1:
+            return ("tuple", tuple(("tuple", tuple(a_[1][i] for a_ in args)) for i in range(len(args[0][1]))))
+        if name == "dict" and len(args) == 1 and not kwargs and lit(args[0]) and all(x[0] == "tuple" and len(x[1]) == 2 for x in args[0][1]):
+            return ("dict", tuple((x[1][0], x[1][1]) for x in args[0][1]))
+        if name == "dataclasses.replace" and len(args) == 1 and all(k != "**" for k, _ in kwargs):
+            return T.mk_replace(args[0], tuple(kwargs))  # dataclasses.replace(x, a=v) is x.replace(a=v) (what the generated method does)
+        if fterm[0] == "call" and T.call_name(fterm) == "operator.methodcaller" and fterm[2] and fterm[2][0][0] == "const" and len(args) == 1 and not kwargs:
+            m_ = fterm[2][0][1]  # operator.methodcaller("m", *a)(x) is x.m(*a)
+            return self.call(T.mk_attr(args[0], m_) if args[0][0] == "sym" else ("attr", args[0], m_), list(fterm[2][1:]), list(fterm[3]), node, frame, recv=args[0], method=m_)
+        if name in ("list", "tuple") and len(args) == 1 and not kwargs and args[0][0] == "call" and args[0][1] == "map" and len(args[0][2]) == 2 and not args[0][3]:
+            f_, xs = args[0][2]
+            if xs[0] in ("tuple", "list") and not any(x[0] == "star" for x in xs[1]):
+                return (name, tuple(self.call(f_, [x], [], node, frame) for x in xs[1]))  # map over a literal: element by element
+            # list(map(f, xs)) is [f(x) for x in xs]
+            cid = self.uid()
+            src, proj = canon_iter(xs)
+            el = ("elem", src, cid)
+            self.loop_stack = self.loop_stack + (cid,)
+            elt = self.call(f_, [el if proj is None else T.mk_index(el, T.const(proj))], [], node, frame)
+            self.loop_stack = self.loop_stack[:-1]
+            self.loops[cid] = LoopInfo(cid, "comp", src, "x", {}, {}, None, node, self.live)
+            return ("comp", "list", elt, (("x", src),), ())
         if name in ("operator.itemgetter", "operator.attrgetter") and len(args) == 1 and not kwargs and (name.endswith("itemgetter") or args[0][0] == "const"):
             # operator.itemgetter(k) is lambda x: x[k]; operator.attrgetter("a") is lambda x: x.a
             src = "lambda __x: __x[__k]" if name.endswith("itemgetter") else f"lambda __x: __x.{args[0][1]}"
@@ -1328,7 +1462,7 @@ class SymEval:
             # a nested function of the reference tree that now lives at module level / as a method: applied like the closure it was
             self_t = recv if (target.cls and target.parent is None and _first_param(target.node) in ("self",)) else None
             return self.inline_call(target, args, kwargs, self_t, node, frame)
-        if target is not None and self.is_new_helper(target) and len(self.helper_stack) < 3 and target.qualname not in self.helper_stack:
+        if target is not None and self.is_new_helper(target) and not self._pulled_up(target, recv, method) and len(self.helper_stack) < 3 and target.qualname not in self.helper_stack:
             # a function the reference tree does not have: a helper extracted later; analyse it at the call site, with its
             # events attributed to the caller
             self_t = recv if (target.cls and target.parent is None and _first_param(target.node) in ("self",)) else None
@@ -1344,8 +1478,30 @@ class SymEval:
             if _first_param(target.node) == "cls" and target.cls:
                 self_t = recv if recv is not None else T.sym("cls")
             return self.inline_call(target, args, kwargs, self_t, node, frame)
+        # an instance of an in-repo class with __call__ (a closure written as a small class): calling it runs that method
+        if fterm[0] == "obj":
+            oc = self.model.find_class(fterm[1])
+            cm = self.model.lookup_method(oc, "__call__") if oc is not None else None
+            if cm is not None and self.depth < self.max_depth + 3:
+                return self.inline_call(cm, args, kwargs, fterm, node, frame, as_helper=self.is_new_helper(cm) and len(self.helper_stack) < 3)
         # dataclass construction
         ci = self.resolve_class(name, fterm, frame)
+        if ci is not None and not ci.is_dataclass and "__init__" in ci.methods:
+            # a plain class whose __init__ only stores its parameters: read like the dataclass it amounts to
+            init = ci.methods["__init__"].node
+            ps = [a_.arg for a_ in init.args.args[1:]]
+            body = [st_ for st_ in init.body if not (isinstance(st_, ast.Expr) and isinstance(st_.value, ast.Constant))]
+            plain = all(isinstance(st_, ast.Assign) and len(st_.targets) == 1 and isinstance(st_.targets[0], ast.Attribute) and isinstance(st_.targets[0].value, ast.Name)
+                        and st_.targets[0].value.id == "self" and isinstance(st_.value, ast.Name) and st_.value.id in ps for st_ in body)
+            if plain and body and not init.args.vararg and not init.args.kwarg and not any(a_[0] == "star" for a_ in args) and all(k != "**" for k, _ in kwargs) \
+                    and len(args) <= len(ps):
+                given = dict(zip(ps, args))
+                given.update(dict(kwargs))
+                if all(st_.value.id in given for st_ in body):
+                    simple = ci.qualname.split(".")[-1]
+                    t = ("obj", simple, tuple((st_.targets[0].attr, given[st_.value.id]) for st_ in body))
+                    self.emit("call", "new:" + simple, t, node, frame, args=tuple(args), kwargs=tuple(kwargs), recv=recv)
+                    return t
         if ci is not None and ci.is_dataclass:
             fields = self.model.dataclass_fields(ci)
             items = []
@@ -1375,6 +1531,8 @@ class SymEval:
                 items = [(f, x) for f, x in items if f != k] + [(k, v)]
             if ok:
                 simple = ci.qualname.split(".")[-1]
+                if getattr(ci, "is_namedtuple", False):
+                    items = sorted(items, key=lambda kv: fields.index(kv[0]) if kv[0] in fields else len(fields))  # a tuple: field order
                 t = ("obj", simple, tuple(items))
                 self.emit("call", "new:" + simple, t, node, frame, args=tuple(args), kwargs=tuple(kwargs), recv=recv)
                 return t
@@ -1396,6 +1554,15 @@ class SymEval:
     def is_new_helper(self, target: FuncInfo) -> bool:
         known = _known_api()
         return bool(known) and target.qualname not in known and target.parent is None and target.qualname not in self.model.aliases().values()
+
+    def _pulled_up(self, target: FuncInfo, recv, method) -> bool:
+        """The callee is a method of the reference API that now lives in an in-repo base class of the receiver's class: still that
+        API method (called, not analysed inline)."""
+        if recv is None or method is None or target.cls is None:
+            return False
+        ci = self.type_of(recv)
+        known = _known_api()
+        return ci is not None and ci.qualname != target.cls and bool(known) and f"{ci.qualname}.{method}" in known
 
     def should_inline(self, target: FuncInfo, name: str, method: Optional[str]) -> bool:
         return (target.qualname in self.inline) or (target.name in self.inline) or ("*" in self.inline)
@@ -1746,7 +1913,7 @@ def _acc_join(a: Term, b: Term) -> Optional[Term]:
 
 
 def _acc_append(t: Term, item) -> Optional[Term]:
-    if t[0] == "list":
+    if t[0] == "list" or t == ("call", "set", (), (), None):
         return ("accum", t, (item,))
     if t[0] == "accum":
         return ("accum", t[1], t[2] + (item,))
@@ -1844,6 +2011,56 @@ def _search_loop(loop: ast.For, after: ast.stmt):
     ast.copy_location(ret, loop)
     ast.fix_missing_locations(ret)
     return ret
+
+
+def _counter_while_as_for(st: ast.While, frame):
+    """The `for i in range(a, n)` loop a counting while loop abbreviates (i = a before it, `while i < n`, `i += 1` as last statement, i not
+    assigned elsewhere in the body, no continue / else), or None."""
+    t = st.test
+    if st.orelse or not (isinstance(t, ast.Compare) and len(t.ops) == 1 and isinstance(t.ops[0], ast.Lt) and isinstance(t.left, ast.Name)) or not st.body:
+        return None
+    i = t.left.id
+    last = st.body[-1]
+    if not (isinstance(last, ast.AugAssign) and isinstance(last.target, ast.Name) and last.target.id == i and isinstance(last.op, ast.Add)
+            and isinstance(last.value, ast.Constant) and last.value.value == 1):
+        return None
+    body = st.body[:-1]
+    if not body:
+        return None
+    bound_names = {n.id for n in ast.walk(t.comparators[0]) if isinstance(n, ast.Name)}
+    for n in [x for s_ in body for x in ast.walk(s_)]:
+        if isinstance(n, (ast.Continue,)) or (isinstance(n, ast.Name) and isinstance(n.ctx, (ast.Store, ast.Del)) and (n.id == i or n.id in bound_names)):
+            return None
+        if isinstance(n, ast.Call) and any(isinstance(m, ast.Name) and m.id in bound_names for m in ast.walk(n.func)) and isinstance(n.func, ast.Attribute) \
+                and n.func.attr in ("append", "pop", "popleft", "extend", "clear", "add", "remove"):
+            return None
+    pre = frame.lookup(i)
+    c = T.const_value(pre) if pre is not None else None
+    if c is None or c.denominator != 1:
+        return None
+    f = ast.For(target=ast.Name(id=i, ctx=ast.Store()), iter=ast.Call(func=ast.Name(id="range", ctx=ast.Load()),
+                                                                      args=([ast.Constant(value=int(c))] if int(c) != 0 else []) + [t.comparators[0]], keywords=[]),
+                body=body, orelse=[])
+    ast.copy_location(f, st)
+    ast.fix_missing_locations(f)
+    return f
+
+
+def _queue_of_entry(t: Term) -> Optional[str]:
+    """name of the queue attribute if t is an entry taken from / peeked in a queue: <x>.<q>.popleft() / .pop() / <x>.<q>[i]"""
+    if t[0] == "call" and not t[2] and isinstance(t[1], str) and t[1].rsplit(".", 1)[-1] in ("popleft", "pop") and t[1].count(".") >= 2:
+        return t[1].rsplit(".", 2)[-2]
+    if t[0] == "call" and not t[2] and isinstance(t[1], tuple) and t[1][0] == "attr" and t[1][2] in ("popleft", "pop"):
+        b = t[1][1]
+        return b[2] if b[0] == "attr" else (b[1].rsplit(".", 1)[-1] if b[0] == "sym" else None)
+    if t[0] == "index":
+        b = t[1]
+        return b[2] if b[0] == "attr" else (b[1].rsplit(".", 1)[-1] if b[0] == "sym" and "." in b[1] else None)
+    return None
+
+
+def _is_keys_view(t: Term) -> bool:
+    return t[0] == "call" and not t[2] and not t[3] and ((isinstance(t[1], str) and t[1].endswith(".keys")) or (isinstance(t[1], tuple) and t[1][0] == "attr" and t[1][2] == "keys"))
 
 
 def _never_mutated(tree: ast.Module, name: str) -> bool:
